@@ -52,6 +52,7 @@ def doc_features(doc):
         in_info, broken = False, False
         conn_cables = []
         merge_names = []
+        named = set()
         first_latch = None
         for l in lines:
             head = l[0] if l else ''
@@ -91,6 +92,7 @@ def doc_features(doc):
                     first_latch = n
                 elif n > first_latch:
                     f.add('latch-mix')
+            named |= cables
             if head in BODY_STMTS and cables & set(conn_cables):
                 f.add('conn-early')
             if head == '.conn' and len(l) == 3:
@@ -98,13 +100,16 @@ def doc_features(doc):
                     c = cable_of(t)
                     if c in conn_cables:
                         f.add('conn-twice')
-                    if c in merge_names:
-                        f.add('conn-capture')       # the operand spells the cable name an earlier .conn created
+                    named.add(c)
                     conn_cables.append(c)
                 merge_names.append('%s_%d_%s_%d' % (cable_of(l[1]), bit_of(l[1]), cable_of(l[2]), bit_of(l[2])))
             if head == '.blackbox':
                 f.add('blackbox')
-        # .conn on a bit of a multi-wire cable: remove_wire renumbers the remaining wires
+        # a net of the section is spelled like the cable name <a>_<i>_<b>_<j> that the reader, before the repair of
+        # merge_wires, gave the net merged by a .conn of the section (it then captured that net)
+        if named & set(merge_names):
+            f.add('conn-capture')
+        # .conn on a bit of a multi-wire cable (before the repair: remove_wire renumbered the remaining wires)
         multi = set()
         for l in lines:
             for t in l[1:] if l else []:
